@@ -55,8 +55,11 @@ def ExtInf.parse (s : Str) : Res ExtInf := do
 def ExtInf.show (t : ExtInf) : Str :=
   pfxInf ++ showSecs t.duration ++ [','] ++ t.title.getD []
 
+/-- is the duration written with a fraction (`as_secs_f64().fract() != 0`: the printed number has a decimal point) -/
+def ExtInf.writtenFraction (t : ExtInf) : Bool := (showSecs t.duration).contains '.'
+
 def ExtInf.requiredVersion (t : ExtInf) : Nat :=
-  if t.duration % nanosPerSec == 0 then 1 else 3
+  if t.writtenFraction then 3 else 1
 
 /-! ## EXT-X-BYTERANGE -/
 
